@@ -29,6 +29,10 @@ from lafem_roles import (Unknown, strip_targs, defile, strip, Locals, perspectiv
 LAFEM = featlib.repo_path("kernel/lafem/")
 MATRIX_CLASSES = ("FEAT::LAFEM::SparseMatrixCSR", "FEAT::LAFEM::SparseMatrixBCSR")
 MERGE_FUNCS = ("add_double_mat_product", "add_mat_mat_product")
+# members that implement the operations of the property at container level (not transposing, not converting)
+ALGEBRA_MEMBERS = ("axpy", "scale", "scale_rows", "scale_cols", "shrink", "lump_rows", "extract_diag", "extract_diag_indices",
+                   "row_norm2", "row_norm2sqr", "norm_frobenius", "max_abs_element", "min_abs_element", "max_element", "min_element",
+                   "add_double_mat_product", "add_mat_mat_product", "add_trace_double_mat_mult")
 
 # index kind by which a vector slot of a matrix kernel is subscripted; source: the documented formulas
 #   scale_rows: this_ij <- x_ij * s_i     scale_cols: this_ij <- x_ij * s_j      lump_i = sum_j a_ij
@@ -975,6 +979,165 @@ def merge_paths(ck, fn, sig):
 
 
 # -------------------------------------------------------------------------------------------------
+# container-level row loops (loop-carried state) and re-created results (dimension roles)
+# -------------------------------------------------------------------------------------------------
+def _target_local(n):
+    """base local of a write target: `t`, `t[i]`, `t[i][j]`, `t.v[i]` -> decl id (else None)"""
+    n = strip(n)
+    while n is not None:
+        k = n.get("k")
+        if k == "Ref":
+            return n.get("d") if n.get("dk") == "local" else None
+        if k == "Index":
+            n = strip(n["b"])
+        elif k == "OpCall" and n.get("op") in ("[]", "()") and n.get("a"):
+            n = strip(n["a"][0])
+        elif k == "Member" and n.get("b") is not None:
+            n = strip(n["b"])
+        else:
+            return None
+    return None
+
+
+def _writes(stmt):
+    """(decl id, full?) of locals written by the statement tree"""
+    out = []
+    for n in walk(stmt):
+        k = n.get("k")
+        if k == "Assign":
+            d = _target_local(n["lhs"])
+            if d is not None:
+                full = strip(n["lhs"]).get("k") == "Ref" and n.get("op") == "="
+                out.append((d, full, n))
+        elif k == "OpCall" and n.get("op") in ("=", "+=", "-=", "*=", "/=") and n.get("a"):
+            d = _target_local(n["a"][0])
+            if d is not None:
+                out.append((d, strip(n["a"][0]).get("k") == "Ref" and n["op"] == "=", n))
+        elif k == "Un" and n.get("op") in ("++", "--"):
+            d = _target_local(n["e"])
+            if d is not None:
+                out.append((d, False, n))
+        elif k == "MCall" and n.get("n") in ("format", "clear") and strip(n.get("obj") or {}).get("k") == "Ref":
+            o = strip(n["obj"])
+            if o.get("dk") == "local":
+                out.append((o["d"], True, n))
+    return out
+
+
+def check_row_loops(ck, fn):
+    """E2.row-loop-state: the value stored for row i does not depend on state of an earlier iteration"""
+    loc = Locals(fn)
+    sig = "(%s)" % ",".join(p["n"] for p in fn.params)
+    outp = {p["d"]: p["n"] for p in fn.params if vec_like(fn.type(p["t"])) and not fn.type(p["t"]).strip().startswith("const")}
+    declared = {}
+    for n in fn.nodes():
+        if n.get("k") == "Var":
+            declared[n["d"]] = n
+    for loop in [n for n in fn.nodes() if n.get("k") == "For"]:
+        cl = counting_loop(loop)
+        if cl is None:
+            continue
+        a = accessor(loc, cl[2])
+        if not (a and a["obj"] == "this" and a["name"] == "rows") or not is_zero(cl[1]):
+            continue
+        rowvar = cl[0]
+        inside = {n["d"] for n in walk(loop["body"]) if n.get("k") == "Var"}
+        stores = []
+        for n in walk(loop["body"]):
+            if n.get("k") == "OpCall" and n.get("op") == "()" and len(n.get("a", [])) == 3:
+                o, i0 = strip(n["a"][0]), strip(n["a"][1])
+                if o.get("k") == "Ref" and o.get("d") in outp and i0.get("k") == "Ref" and i0.get("d") == rowvar:
+                    stores.append((outp[o["d"]], n["a"][2], n))
+            if n.get("k") == "Assign":
+                l = strip(n["lhs"])
+                if l.get("k") == "Index" and strip(l["idx"]).get("k") == "Ref" and strip(l["idx"]).get("d") == rowvar:
+                    acc = accessor(loc, l["b"])
+                    b = loc.resolve(l["b"])
+                    nm = acc["obj"] if acc and acc["name"] == "elements" and acc["obj"] in outp.values() else None
+                    if nm is not None:
+                        stores.append((nm, n["rhs"], n))
+        top = loop["body"].get("s", []) if loop["body"].get("k") == "Block" else [loop["body"]]
+        wr = _writes(loop["body"])
+        written = {d for d, _, _ in wr}
+        for name, val, node in stores:
+            key = "%s::%s%s/%s" % (short(fn.cls), fn.name, sig, name)
+            # locals the stored value depends on (through initialisers and in-loop writes of those locals)
+            deps, work = set(), [val]
+            while work:
+                x = work.pop()
+                for y in walk(x):
+                    if y.get("k") == "Ref" and y.get("dk") == "local" and y.get("d") != rowvar and y["d"] not in deps:
+                        deps.add(y["d"])
+                        v = declared.get(y["d"])
+                        if v is not None and v.get("init") is not None:
+                            work.append(v["init"])
+                        for d, full, wn in wr:
+                            if d == y["d"]:
+                                work.append(wn.get("rhs") if wn.get("k") == "Assign" else {"k": "Block", "s": wn.get("a", [])[1:]})
+            problems = []
+            for d in sorted(deps):
+                if d in inside or d not in written:
+                    continue          # fresh per iteration, or loop invariant
+                nm = declared[d]["n"] if d in declared else "?"
+                # an unconditional full definition at the top level of the loop body before the first other access
+                reset = False
+                for st in top:
+                    own_full = [wn for dd, full, wn in _writes(st) if dd == d and full and wn is st]
+                    if own_full:
+                        src = st.get("rhs") if st.get("k") == "Assign" else {"k": "Block", "s": (st.get("a") or [])[(1 if st.get("k") == "OpCall" else 0):]}
+                        if not any(y.get("k") == "Ref" and y.get("d") == d for y in walk(src)):
+                            reset = True
+                        break
+                    if any(y.get("k") == "Ref" and y.get("d") == d for y in walk(st)):
+                        break
+                if not reset:
+                    problems.append("`%s` is declared outside the row loop, written inside it (line %s) and not re-initialised at the top of every iteration: the value stored for row i depends on earlier rows (rows that take no assigning path keep the stale value)" % (
+                        nm, [wn.get("l") for dd, _, wn in wr if dd == d][0]))
+            ck.ob("E2.row-loop-state", key, not problems, "; ".join(problems) if problems else "value stored for `%s[row]` depends only on loop-invariant data and on locals that are fresh in every iteration (%d locals traced)" % (name, len(deps)),
+                  fn.file, node.get("l"))
+
+
+def check_result_dims(ck, fn):
+    """E1.result-dims: a non-transposing member that re-creates *this keeps rows and columns on every exit"""
+    loc = Locals(fn)
+    sig = "(%s)" % ",".join(p["n"] for p in fn.params)
+    own = strip_targs(fn.cls)
+    ctors = [n for n in fn.nodes() if n.get("k") in ("Construct", "TempObj") and strip_targs(n.get("ccls", "")) == own
+             and "rows_in" in n.get("pn", []) and "columns_in" in n.get("pn", [])]
+    if not ctors:
+        return
+    equal = {"rows": {"this"}, "columns": {"this"}}
+    for cond, _ in assertions(fn):
+        c = strip(cond)
+        if c.get("k") == "Bin" and c.get("op") == "==":
+            l, r = accessor(loc, c["lhs"]), accessor(loc, c["rhs"])
+            if l and r and l["name"] == r["name"] and l["name"] in equal and "this" in (l["obj"], r["obj"]):
+                equal[l["name"]] |= {l["obj"], r["obj"]}
+    seen_roles = []
+    for k, c in enumerate(sorted(ctors, key=lambda n: n.get("l", 0))):
+        key = "%s::%s%s/result#%d" % (short(fn.cls), fn.name, sig, k)
+        slots = dict(zip(c["pn"], c["a"]))
+        problems = []
+        roles = []
+        for slot, want in (("rows_in", "rows"), ("columns_in", "columns")):
+            a = accessor(loc, slots[slot])
+            if a is None or a["name"] not in ("rows", "columns"):
+                ck.incomplete("E1.result-dims", "%s: slot %s receives `%s` (not a dimension accessor)" % (key, slot, render(slots[slot])))
+                roles.append("?")
+                continue
+            roles.append("%s.%s" % (a["obj"], a["name"]))
+            if a["name"] != want or a["obj"] not in equal[want]:
+                problems.append("slot %s receives %s.%s(); %s does not transpose: the result must have this->%s() %s" % (slot, a["obj"], a["name"], fn.name, want, want))
+        seen_roles.append(tuple(roles))
+        ck.ob("E1.result-dims", key, not problems, "; ".join(problems) if problems else "result constructed with (rows_in, columns_in) <- (%s)" % ", ".join(roles), fn.file, c.get("l"))
+    if len(set(seen_roles)) > 1:
+        ck.ob("E1.result-dims", "%s::%s%s/exits-agree" % (short(fn.cls), fn.name, sig), False,
+              "the exits of %s construct the result with different dimension roles: %s" % (fn.name, sorted(set(seen_roles))), fn.file, fn.line)
+    else:
+        ck.ob("E1.result-dims", "%s::%s%s/exits-agree" % (short(fn.cls), fn.name, sig), True, "%d result constructions agree on %s" % (len(ctors), seen_roles[0]), fn.file, fn.line, trivial=len(ctors) < 2)
+
+
+# -------------------------------------------------------------------------------------------------
 def run(tier):
     ck = Check("C03", tier)
     ck.rule("E1.slots", "Arch call sites of SparseMatrixCSR/BCSR (axpy, scale, norm_frobenius, row_norm2/2sqr, max/min(_abs)_element, scale_rows/cols, lump_rows, extract_diag_indices): every slot named by the callee's parameters receives the like-named accessor of the right object (structure arrays and extents of the receiver, value array of the operand matrix in slot a/x, the vector operand, the scalar, BlockHeight/BlockWidth), pod arrays with pod entry counts. Broken for: rectangular matrices / rectangular blocks, alpha != 1, x != this.", 42)
@@ -983,6 +1146,8 @@ def run(tier):
     ck.rule("E2.matrix-kernel", "generic kernels ScaleRows/ScaleCols/Lumping/RowNorm/Diagonal (csr and bcsr): outer loop over [0,rows), entry loop over [row_ptr[row],row_ptr[row+1]), every array subscripted by the index kind of its role (entry, row, col_ind[entry]; blocked affine forms), per-row results defined outside the entry loop (empty rows), reductions only accumulate inside the entry loop, per-entry term and result equal the documented formula. Broken for: rectangular matrices, empty rows, rows with more than one entry/block.", 46)
     ck.rule("E2.merge-kinds", "add_double_mat_product / add_mat_mat_product (CSR, BCSR): every subscript of row_ptr/col_ind/val/elements of X, D, A, B has the index kind the array needs (Row/NZ/Col/Dim of that object); kinds of different objects are equal only through the function's own XASSERTs; compared column indices live in the same space; cursors are bounded by the end of their own segment. Broken for: products of non-square factors.", 86)
     ck.rule("E7.no-silent-drop", "merge loops: an entry of the right factor B is passed over only after the accumulate statement X_ij += w*B_lj ran in the same iteration (itself control dependent on equal column indices, reading B at the cursor) or on the true edge of allow_incomplete, where advancing the B cursor by exactly one is the only permitted effect (at most one advance per iteration); the loop is left early only under allow_incomplete AND with the X cursor at the end of its row (no slot can follow); every other way out reaches XABORTM; the X cursor is checked against the end of its row before it is dereferenced and passes a slot only after serving it or when its column is smaller than the current B column. Broken for: output patterns poorer than the product pattern (silently wrong values instead of the documented abort), rows of X shorter than rows of B.", 7)
+    ck.rule("E2.row-loop-state", "container-level row loops of the matrix-algebra members (extract_diag): the value stored for row i into an output vector depends only on loop-invariant data and on locals that are fresh (declared, or unconditionally re-initialised at the top) in every iteration. Broken for: rows that take no assigning path (block rows without a diagonal block after a row that has one) - they return the value of an earlier row instead of 0.", 3)
+    ck.rule("E1.result-dims", "matrix-algebra members that re-create *this (shrink) construct the result with rows_in <- rows(), columns_in <- columns() of the receiver (or of an operand asserted equal) on every exit, and all exits agree. Broken for: non-square matrices on the special-case exit (all entries dropped).", 3)
     ck.rule("E0.instantiable", "the matrix algebra members instantiate for CSR and BCSR (square and rectangular blocks)", 3)
 
     extra = ("-DVERIF_THOROUGH",) if tier == "thorough" else ()
@@ -1040,6 +1205,9 @@ def run(tier):
                 for c in fn.calls(callee_re=ARCH_RE):
                     if c.get("k") == "Call":
                         check_matrix_call(ck, fn, c, dbg_asserts)
+                if fn.name in ALGEBRA_MEMBERS:
+                    check_row_loops(ck, fn)
+                    check_result_dims(ck, fn)
                 if fn.name in MERGE_FUNCS:
                     sig = "(%s)" % ",".join("%s:%s" % (p["n"], mat_class(fn.type(p["t"])) or ("vec" if vec_like(fn.type(p["t"])) else "")) for p in fn.params if p["n"] in ("d", "a", "b"))
                     sig = sig.replace("SparseMatrix", "")
